@@ -127,6 +127,10 @@ type Client struct {
 	// for testing
 	mockupDialFunc func() (net.Conn, error)
 
+	// pingLock makes "join the ping exchange in progress or start a new
+	// one" atomic.
+	pingLock sync.Mutex
+
 	// gatewayTransactions holds the exchanges started by the gateway
 	// (incoming PUBLISH QoS 2). The gateway and the client choose their
 	// message IDs independently, hence these exchanges must not share the
@@ -510,13 +514,25 @@ func (c *Client) Ping() error {
 // and does not wait for the client's goroutines (unlike Ping), hence it can
 // be used by these goroutines themselves.
 func (c *Client) ping() (err error, terminated bool) {
-	transaction := newPingTransaction(c)
-	ping := pkts1.NewPingreq(nil)
-	c.transactions.StoreByType(pkts.PINGREQ, transaction)
-	transaction.Proceed(nil, ping)
-	if err := c.send(ping); err != nil {
-		transaction.Fail(err)
+	// PINGREQ/PINGRESP carry no message ID, hence there can be only one
+	// ping exchange at a time: Ping() and the keep-alive loop share it.
+	// (Two exchanges stored under the same packet type would replace and
+	// delete each other and one of them would never see its PINGRESP.)
+	c.pingLock.Lock()
+	var transaction *pingTransaction
+	if transactionx, ok := c.transactions.GetByType(pkts.PINGREQ); ok {
+		transaction, _ = transactionx.(*pingTransaction)
 	}
+	if transaction == nil {
+		transaction = newPingTransaction(c)
+		ping := pkts1.NewPingreq(nil)
+		c.transactions.StoreByType(pkts.PINGREQ, transaction)
+		transaction.Proceed(nil, ping)
+		if err := c.send(ping); err != nil {
+			transaction.Fail(err)
+		}
+	}
+	c.pingLock.Unlock()
 	select {
 	case <-transaction.Done():
 		return transaction.Err(), false
